@@ -798,7 +798,7 @@ def run(tier, seed):
 
     walls["asis+witnesses"] = round(time.time() - t_start, 1)
     # 2. conformance: real histories -> Trace_LlcpAddr
-    n = 96 if quick else 800
+    n = 88 if quick else 800
     traces, meta = [], {}
     for i in range(n):
         klass = KLASSES[i % len(KLASSES)]
